@@ -300,7 +300,7 @@ def c06(ctx):
 
 
 # ----------------------------------------------------------------- E3 oom
-OOM_BUILD = {"extra_repo_cpp": ["test_heap.cpp"]}
+OOM_BUILD = {"extra_repo_cpp": ["test_heap.cpp"], "libs": ["-ldl"]}
 OOM_CASES = ["insert/first-leaf", "insert/leaf-split", "insert/prefix-split", "insert/grow-to-I16", "insert/grow-to-I48", "insert/grow-to-I256", "insert/add-to-node",
              "remove/shrink-from-I16", "remove/shrink-from-I48", "remove/shrink-from-I256"]
 
@@ -316,14 +316,15 @@ def c08(ctx):
                 "scheduler must terminate; the first k that completes is the retry and must return the model's result - so k covers exactly the allocations the "
                 "operation makes. Every operation is injected on trees of <= 48 entries, structural operations always, others with probability 48/n. Over-long (2^32 "
                 "byte, MAP_NORESERVE) keys and values must raise std::length_error without a trace. QSBR: qsbr_resume, qsbr_thread construction, "
-                "on_next_epoch_deallocate (second thread parked so that the request queues). evaluations = (operation, k) injections; distinct+non-trivial = "
+                "on_next_epoch_deallocate (second thread parked so that the request queues). An interposed pthread_mutex monitor checks after every injected call that the "
+                "calling thread holds no std::mutex (mutex_db, QSBR statistics). evaluations = (operation, k) injections; distinct+non-trivial = "
                 "(operation kind, structural case, class, key kind, k) is new and the fault really surfaced as an exception")
     ctx.assumptions = ["one fault per operation; the injector keeps failing every later allocation until disarmed (at least as hostile during unwinding)",
                        "harness allocations happen only while the injector is disarmed or paused (tracker callbacks)",
                        "no sanitizer in this build (replaced operator new); leak accounting by the allocation hooks"]
     tags = ["%s.%s" % (c, k) for c in ("db", "mutex_db", "olc_db") for k in ("u64", "key_view")]
     ctx.floors = [("surfaced.%s.%s" % (c, tag), 1) for c in OOM_CASES for tag in tags]
-    ctx.floors += [("injections.qsbr_resume", 10), ("injections.qsbr_thread", 10), ("injections.on_next_epoch_deallocate", 10), ("olc_lock_sweeps", 1000),
+    ctx.floors += [("injections.qsbr_resume", 10), ("injections.qsbr_thread", 10), ("injections.on_next_epoch_deallocate", 10), ("olc_lock_sweeps", 1000), ("mutex_balance_checks", 10000),
                    ("length_error_key_cases", 5), ("length_error_value_cases", 5)]
 
 
